@@ -36,7 +36,7 @@ func init() {
 					case 0, 1, 2:
 						mine = append(mine, e.add(q, r.Intn(3), randOutcome(r), false, ""))
 					case 3:
-						e.addAll(q, []itemSpec{{r.Intn(3), oOK, false}, {r.Intn(3), randOutcome(r), false}})
+						e.addAll(q, []itemSpec{{prio: r.Intn(3), outcome: oOK}, {prio: r.Intn(3), outcome: randOutcome(r)}})
 					case 4:
 						e.purge(q)
 					case 5:
